@@ -397,7 +397,13 @@ def indication_slot(ctx, rule='C10.indication-slot'):
     R.check(len(sends) == 1, rule, f'{SRV}._indicate_single_bearer | one send', 'one', f'{len(sends)} sends', p.loc(m))
     for c in sends:
         withs = [a for a in _anc(c) if isinstance(a, ast.AsyncWith)]
-        ok = any('self.indication_semaphores[bearer]' in norm(it.context_expr) for w in withs for it in w.items)
+        def _ctx(e):
+            # `async with self.indication_semaphores[bearer]` or `async with <local>` whose only definition is that expression
+            if isinstance(e, ast.Name):
+                defs = [n_.value for n_ in walk_local(m) if isinstance(n_, ast.Assign) and dotted(n_.targets[0]) == e.id]
+                return norm(defs[0]) if len(defs) == 1 else ''
+            return norm(e)
+        ok = any('self.indication_semaphores[bearer]' in _ctx(it.context_expr) for w in withs for it in w.items)
         R.check(ok, rule, f'{SRV}._indicate_single_bearer | sent under the per-bearer semaphore', 'inside `async with self.indication_semaphores[bearer]`', 'the indication is sent without holding the per-bearer indication semaphore: two can be outstanding', p.loc(c))
         trys = [a for a in _anc(c) if isinstance(a, ast.Try)]
         def _clears(t):
